@@ -6,7 +6,7 @@
    family [otag -> ...] gives every construct of a program its own oracle. *)
 From Coq Require Import ZArith List Bool Permutation Sorted String.
 From RV Require Import Base.Wire Base.Text Lang.Order Proofs.OrderP.
-From RV Require Import Gen.SetSites Lang.OrderSites Proofs.OrderSitesP.
+From RV Require Import Gen.SetSites Lang.OrderSites Proofs.OrderSitesP Lang.DevSession Proofs.DevSessionP.
 Import ListNotations.
 Open Scope Z_scope.
 
@@ -178,3 +178,72 @@ Print Assumptions C10_imports_are_pure.
 Theorem C10_no_ambient_builtins : ambient_calls = [].
 Proof. exact no_ambient_calls. Qed.
 Print Assumptions C10_no_ambient_builtins.
+
+(* ---------------------------------------------------------------- statelessness across parse() calls (Lang/DevSession.v) *)
+(* The device-name registries of ctx, created by `ctx.setdefault(key, D)` and read by `ctx.get(key, D)`, with a module-level
+   store threaded from one parse() to the next.  [cfg_ok]: every key that does not exist before the first statement takes
+   FRESH defaults.  Then the output of a program is its own translation [transl_dev p], whatever was transpiled before and
+   after it and whatever the module-level objects hold. *)
+Theorem C10_session_stateless : forall c ms before p after, cfg_ok c = true ->
+  nth_error (dsession c ms (before ++ p :: after)) (List.length before) = Some (transl_dev p).
+Proof. exact dsession_stateless. Qed.
+Print Assumptions C10_session_stateless.
+
+(* ... and one parse() leaves the module-level store as it found it *)
+Theorem C10_parse_leaves_module_store : forall c ms p, cfg_ok c = true -> run c ms p = (transl_dev p, ms).
+Proof. exact run_pure. Qed.
+Print Assumptions C10_parse_leaves_module_store.
+
+Example C10_session_stateless_nonvacuous :
+  cfg_ok (cfg_fresh (fun k => negb (key_eqb k KSerial))) = true /\
+  dsession (cfg_fresh (fun k => negb (key_eqb k KSerial))) [(txt "_NO_NAMES"%string, [n_x])] [leak_A; leak_B; leak_A]
+    = [Some []; Some [(n_y, 2, 0)]; Some []].
+Proof. exact stateless_nonvacuous. Qed.
+Print Assumptions C10_session_stateless_nonvacuous.
+
+(* the guard is tight: a lazily created registry whose default is one module-level object (here the serial monitors) makes a
+   later, unrelated program come out differently: x = SerialMonitor(..) in A; x = Potentiometer(..), y = x.read() in B *)
+Theorem C10_shared_default_refuted : forall c o,
+  c_pre c KSerial = false -> c_set c KSerial = Some o -> c_get c KSerial = Some o ->
+  c_pre c KServo = true -> c_pre c KPot = true -> c_pre c KPotPin = true ->
+  exists A B, nth_error (dsession c [] [A; B]) 1 <> Some (transl_dev B).
+Proof. exact shared_default_refutes. Qed.
+Print Assumptions C10_shared_default_refuted.
+
+Example C10_shared_default_witness : forall c o,
+  c_pre c KSerial = false -> c_set c KSerial = Some o -> c_get c KSerial = Some o ->
+  c_pre c KServo = true -> c_pre c KPot = true -> c_pre c KPotPin = true ->
+  transl_dev leak_B = Some [(n_y, 2, 0)] /\ dsession c [] [leak_A; leak_B] = [Some []; Some [(n_y, 2, 3)]].
+Proof. exact shared_default_leaks. Qed.
+Print Assumptions C10_shared_default_witness.
+
+(* the CURRENT source (Gen/SetSites.v: the keys parse() and the prologue of _parse_simple_lines seed, the default of every
+   setdefault/get site) is inside the guard ... *)
+Theorem C10_current_source_defaults_fresh : cfg_ok cfg_gen = true.
+Proof. exact cfg_gen_ok. Qed.
+Print Assumptions C10_current_source_defaults_fresh.
+
+(* ... hence stateless for every session *)
+Theorem C10_session_stateless_current_source : forall ms before p after,
+  nth_error (dsession cfg_gen ms (before ++ p :: after)) (List.length before) = Some (transl_dev p).
+Proof. exact session_stateless_current_source. Qed.
+Print Assumptions C10_session_stateless_current_source.
+
+(* every use of a module-level (or class-level) mutable object - set/dict/list displays and constructor calls bound at module
+   level - in parser.py / emitter.py / ast.py is read-only: none is mutated, not even through a local alias, and none ESCAPES
+   (passed to a call such as ctx.setdefault(key, M) / ctx.get(key, M), stored, returned, default argument); the only exception
+   is the verification hook appending to its own log *)
+Theorem C10_module_objects_never_escape : forall u, In u module_uses -> u_class u <> 0 ->
+  u_name u = hook_log /\ u_class u = 2.
+Proof. exact module_uses_accounted. Qed.
+Print Assumptions C10_module_objects_never_escape.
+
+(* no `X.setdefault("key", D)` / `X.get("key", D)` of the three files takes a module-level object as D *)
+Theorem C10_no_shared_default : forall d, In d default_sites -> d_class d <> 2.
+Proof. exact default_sites_accounted. Qed.
+Print Assumptions C10_no_shared_default.
+
+(* every key of the dictionary parse() starts from is seeded with a fresh object or a constant *)
+Theorem C10_ctx_seeded_fresh : forall e, In e ctx_preseeded -> snd e = true.
+Proof. exact preseeded_fresh. Qed.
+Print Assumptions C10_ctx_seeded_fresh.
